@@ -491,6 +491,8 @@ func (c *cmp) static(path string, wv, gv reflect.Value, strictDyn bool) error {
 			}
 		}
 		usedKeys := map[unsafe.Pointer]bool{} // result keys already matched to a pointer key of the original
+		var nanVals []reflect.Value
+		var nanUsed []bool
 		it := wv.MapRange()
 		for it.Next() {
 			g := gv.MapIndex(it.Key())
@@ -504,13 +506,34 @@ func (c *cmp) static(path string, wv, gv reflect.Value, strictDyn bool) error {
 				g = gv.MapIndex(reflect.ValueOf(""))
 			}
 			if !g.IsValid() && isNaNKey(it.Key()) {
-				// NaN never equals itself (MapIndex cannot find it): a NaN key is found by walking the entries
-				jt := gv.MapRange()
-				for jt.Next() {
-					if isNaNKey(jt.Key()) {
-						g = jt.Value()
+				// NaN never equals itself (MapIndex cannot find it) and a map may hold several NaN keys: the
+				// entries are collected once and matched as a multiset, by value
+				if nanVals == nil {
+					jt := gv.MapRange()
+					for jt.Next() {
+						if isNaNKey(jt.Key()) {
+							nanVals = append(nanVals, jt.Value())
+						}
+					}
+					nanUsed = make([]bool, len(nanVals))
+				}
+				pick := -1
+				for i, nv := range nanVals {
+					if nanUsed[i] {
+						continue
+					}
+					if pick < 0 {
+						pick = i
+					}
+					sub := &cmp{nameMap: c.nameMap, w2g: map[unsafe.Pointer]unsafe.Pointer{}, g2w: map[unsafe.Pointer]unsafe.Pointer{}}
+					if sub.static(path, it.Value(), nv, strictDyn) == nil {
+						pick = i
 						break
 					}
+				}
+				if pick >= 0 {
+					nanUsed[pick] = true
+					g = nanVals[pick]
 				}
 			}
 			if !g.IsValid() && isPointerKey(it.Key()) {
